@@ -370,6 +370,8 @@ func c12Pieces(k, l int, pieces []string) {
 }
 
 func C12_Pieces3L2() { c12Pieces(3, 2, c12PiecesQuick) }
-func C12_Pieces3L3() { c12Pieces(3, 3, append(append([]string{}, c12PiecesQuick...), c12PiecesMore...)) }
-func C12_Pieces4L2() { c12Pieces(4, 2, c12PiecesQuick) }
+func C12_Pieces3L3() {
+	c12Pieces(3, 3, append(append([]string{}, c12PiecesQuick...), c12PiecesMore...))
+}
+func C12_Pieces4L2()  { c12Pieces(4, 2, c12PiecesQuick) }
 func C12_Pieces3L3q() { c12Pieces(3, 3, c12PiecesQuick) }
